@@ -266,4 +266,14 @@ def rule_relation_tables_shared(ctx):
     ctx.obls.extend(o for o in sub.obls if o["key"].startswith("TAB-MAP:repr_"))
 
 
-RULES = [rule_break, rule_decompose, rule_flag_reads, rule_simplify_shared, rule_relation_tables_shared]
+def rule_simplification_order_shared(ctx):
+    """`--no-simplify` must not change the claim: the simplification that is switched off has to be meaning-preserving where it runs - the
+    HT-sound portfolio before gamma, the classical one only after it (C03's pipeline obligations); swapped, `not not F` is rewritten to `F`
+    at the here-and-there level and the two flag settings state different claims"""
+    from . import c03
+    sub = type(ctx)(ctx.prop, ctx.tier, ctx.facts)
+    c03.rule_pipe(sub)
+    ctx.obls.extend(sub.obls)
+
+
+RULES = [rule_break, rule_decompose, rule_flag_reads, rule_simplify_shared, rule_relation_tables_shared, rule_simplification_order_shared]
